@@ -20,6 +20,12 @@
 #include <pistache/transport.h>
 #include <pistache/utils.h>
 
+#ifdef PISTACHE_VERIF
+// test-only: route the socket writes of this file through pv_hooks::hooked_send
+#include <pistache/verif_hooks.h>
+#define send(fd, buf, len, flags) pv_hooks::hooked_send(fd, buf, len, flags)
+#endif
+
 namespace Pistache::Tcp
 {
     using namespace Polling;
